@@ -12,6 +12,7 @@ from ..loops import dotted
 from ..nf import NF, Scope, Poly
 from ..repo import Repo, loc, short, AnalysisError, bind_call, positional_params
 from ..resolve import Resolver
+from ..sem import TREE_MAPS, leaf_application
 
 EXPLANATION = (
     "R1 decides the dataflow of the two helpers in target_net.py by def-use inlining into a normal form "
@@ -202,14 +203,51 @@ def run(ck, repo: Repo, tier: str):
             ck.ob("R1-helper-law", hq, "writes-target", ok_t, f"nnx.update({tgt}, ...)", "" if ok_t else f"the helper writes `{tgt}`, not the target network (online network must stay unchanged)", loc(mi, c))
             v = val.canon()
             if kind == "hard":
-                want = ["state(net)"]
+                ok_v = v == "state(net)"
+                ck.ob("R1-helper-law", hq, "update-value", ok_v, f"value = {v}", "" if ok_v else "expected `state(net)`: wrong source", loc(mi, c))
+                continue
+            # soft: leaf-wise  tau * state(net) + (1 - tau) * state(target_net), written with optax.incremental_update (arguments by
+            # signature) or as a tree map whose leaf function normalises to that polynomial
+            ve = c.args[1]
+            vn = nid
+            for _ in range(4):
+                if isinstance(ve, ast.Name):
+                    ds = cfg.defs_of(vn, ve.id)
+                    if len(ds) == 1 and ds[0].kind == "assign":
+                        ve, vn = ds[0].value, ds[0].node
+                        continue
+                break
+            A, B, T = Poly.atom("state(net)"), Poly.atom("state(target_net)"), Poly.atom("tau")
+            want_p = T * A + (Poly.const(1) - T) * B
+            fq = repo.resolve_expr(mi, ve.func) if isinstance(ve, ast.Call) and isinstance(ve.func, (ast.Name, ast.Attribute)) else None
+            if fq == "optax.incremental_update":
+                b = {}
+                for pname, a_ in zip(("new_tensors", "old_tensors", "step_size"), ve.args):
+                    b[pname] = a_
+                for kw in ve.keywords:
+                    if kw.arg:
+                        b[kw.arg] = kw.value
+                got = {k: nf.poly(x, sc, vn).canon() for k, x in b.items()}
+                ok_v = got == {"new_tensors": "state(net)", "old_tensors": "state(target_net)", "step_size": "tau"}
+                shown = f"incremental_update(new={got.get('new_tensors')}, old={got.get('old_tensors')}, step={got.get('step_size')})"
+            elif fq in TREE_MAPS:
+                trees = [a_ for a_ in ve.args[1:] if not isinstance(a_, ast.Starred)]
+                ck.need(len(trees) == len(ve.args) - 1 and ve.args, f"{hq}: tree map with starred arguments")
+                leaf = leaf_application(repo, mi, ve.args[0], trees, cfg, vn)
+                got_p = nf.poly(leaf, sc, vn)
+                ok_v = got_p == want_p
+                shown = f"leaf-wise {got_p.canon()}"
+                if not ok_v and not (set(got_p.atoms()) <= {"state(net)", "state(target_net)", "tau"}):
+                    raise AnalysisError(f"{hq}: soft update computes `{got_p.canon()[:120]}` per leaf (unrecognised form)")
             else:
-                want = ["incremental_update(state(net), state(target_net), tau)",
-                        "incremental_update(new_tensors=state(net), old_tensors=state(target_net), step_size=tau)",
-                        "incremental_update(state(net), state(target_net), step_size=tau)",
-                        "incremental_update(state(net), old_tensors=state(target_net), step_size=tau)"]
-            ok_v = v in want
-            ck.ob("R1-helper-law", hq, "update-value", ok_v, f"value = {v}", "" if ok_v else f"expected `{want[0]}`: wrong source, swapped roles or modified step size", loc(mi, c))
+                p_direct = nf.poly(ve, sc, vn)
+                if p_direct == want_p:
+                    ok_v, shown = True, p_direct.canon()
+                elif set(p_direct.atoms()) <= {"state(net)", "state(target_net)", "tau"} and p_direct.atoms():
+                    ok_v, shown = False, p_direct.canon()
+                else:
+                    raise AnalysisError(f"{hq}: the value written to the target `{v[:120]}` is not a recognised Polyak form")
+            ck.ob("R1-helper-law", hq, "update-value", ok_v, f"value = {shown}", "" if ok_v else f"expected leaf-wise `{want_p.canon()}`: wrong source, swapped roles or modified step size", loc(mi, c))
         # the path-independent check that `tau` is not redefined / net not written is contained in the normal form above
         uncond = all(not cfg.control_deps(nid) for nid, _ in ups)
         ck.ob("R1-helper-law", hq, "unconditional", uncond, "nnx.update is executed on every call", "" if uncond else "the update is skipped on some path", loc(mi, fn))
@@ -416,6 +454,9 @@ def _optax_oracle(ck, nf):
 _T = "rl_blox/blox/target_net.py"
 _A = "rl_blox/algorithm/"
 MUTANTS = [
+    {"id": "c06-soft-treemap-swapped", "file": _T, "rule": "R1", "edits": [("import optax\n", "import optax\nimport jax\n"), ("optax.incremental_update(params, target_params, tau)", "jax.tree.map(lambda p, t: tau * t + (1 - tau) * p, params, target_params)")]},
+    {"id": "c06-soft-treemap-trees-swapped", "file": _T, "rule": "R1", "edits": [("import optax\n", "import optax\nimport jax\n"), ("optax.incremental_update(params, target_params, tau)", "jax.tree.map(lambda p, t: tau * p + (1 - tau) * t, target_params, params)")]},
+    {"id": "c06-soft-kw-swapped", "file": _T, "rule": "R1", "find": "optax.incremental_update(params, target_params, tau)", "replace": "optax.incremental_update(old_tensors=params, new_tensors=target_params, step_size=tau)"},
     {"id": "c06-soft-swapped", "file": _T, "rule": "R1", "find": "optax.incremental_update(params, target_params, tau)", "replace": "optax.incremental_update(target_params, params, tau)"},
     {"id": "c06-soft-one-minus-tau", "file": _T, "rule": "R1", "find": "optax.incremental_update(params, target_params, tau)", "replace": "optax.incremental_update(params, target_params, 1 - tau)"},
     {"id": "c06-soft-writes-online", "file": _T, "rule": "R1", "find": "    nnx.update(target_net, target_params)", "replace": "    nnx.update(net, target_params)"},
@@ -439,6 +480,7 @@ MUTANTS = [
     {"id": "c06-ddqn-extra-helper", "file": _A + "ddqn.py", "rule": "R4", "find": "            if step % target_update_frequency == 0:\n                hard_target_net_update(q_net, q_target_net)", "replace": "            if step % target_update_frequency == 0:\n                hard_target_net_update(q_net, q_target_net)\n        if terminated:\n            hard_target_net_update(q_net, q_target_net)"},
 ]
 BENIGN = [
+    {"id": "c06-b-soft-treemap", "file": _T, "edits": [("import optax\n", "import optax\nimport jax\n"), ("optax.incremental_update(params, target_params, tau)", "jax.tree.map(lambda p, t: t + tau * (p - t), params, target_params)")]},
     {"id": "c06-b-td7-early-return", "file": _A + "td7.py", "edits": [("    if epoch % target_delay == 0:\n        hard_target_net_update(policy.actor, policy_target.actor)", "    if epoch % target_delay != 0:\n        return metrics, epochs\n    if True:\n        hard_target_net_update(policy.actor, policy_target.actor)")]},
     {"id": "c06-b-td7-done-alias", "file": _A + "td7.py", "edits": [("        next_obs, reward, termination, truncated, info = env.step(action)\n", "        next_obs, reward, termination, truncated, info = env.step(action)\n        done = termination or truncated\n"), ("            if (termination or truncated) and use_checkpoints:", "            if done and use_checkpoints:")]},
     {"id": "c06-b-td3-not-mod", "file": _A + "td3.py", "find": "                if step % policy_delay == 0:", "replace": "                if not step % policy_delay:"},
